@@ -38,6 +38,12 @@ def c_sources_hash():
     return h.hexdigest()[:16]
 
 
+def prepare():
+    """compile IR and the native replay library once, before worker processes start"""
+    build_ir()
+    build_native()
+
+
 def build_ir(olevel='-O0'):
     """compile the working tree's C files to IR (cached by source hash); returns list of .ll paths"""
     key = c_sources_hash() + ('' if olevel == '-O0' else olevel)
@@ -50,15 +56,17 @@ def build_ir(olevel='-O0'):
     os.makedirs(ompdir, exist_ok=True)
     open(os.path.join(ompdir, 'omp.h'), 'w').close()
     for f, o in zip(C_FILES, outs):
-        raw = o[:-7] + '.ll'
+        raw = o[:-7] + '.%d.ll' % os.getpid()
         flags = [x if x != '-O0' else olevel for x in CLANG_FLAGS]
         cmd = ['clang-14'] + flags + ['-I' + CDIR]
         if 'openmp' in f:
             cmd += ['-fopenmp', '-isystem', ompdir]
         cmd += [os.path.join(CDIR, f), '-o', raw]
         subprocess.run(cmd, check=True, capture_output=True)
-        subprocess.run(['opt-14', '-S', '-passes=' + OPT_PASSES, raw, '-o', o + '.tmp'], check=True, capture_output=True)
-        os.replace(o + '.tmp', o)
+        tmp = o + '.%d.tmp' % os.getpid()
+        subprocess.run(['opt-14', '-S', '-passes=' + OPT_PASSES, raw, '-o', tmp], check=True, capture_output=True)
+        os.replace(tmp, o)
+        os.unlink(raw)
     return outs
 
 
@@ -71,11 +79,12 @@ def build_native(sanitize=False):
         return so
     os.makedirs(d, exist_ok=True)
     srcs = [os.path.join(CDIR, f) for f in ('dd_dtw.c', 'dd_ed.c', 'dd_globals.c')]
-    cmd = ['clang-14', '-shared', '-fPIC', '-O1', '-DNDEBUG', '-ffp-contract=off', '-I' + CDIR] + srcs + ['-lm', '-o', so + '.tmp']
+    tmp = so + '.%d.tmp' % os.getpid()
+    cmd = ['clang-14', '-shared', '-fPIC', '-O1', '-DNDEBUG', '-ffp-contract=off', '-I' + CDIR] + srcs + ['-lm', '-o', tmp]
     if sanitize:
         cmd[1:1] = ['-fsanitize=address,undefined', '-fno-omit-frame-pointer', '-g']
     subprocess.run(cmd, check=True, capture_output=True)
-    os.replace(so + '.tmp', so)
+    os.replace(tmp, so)
     return so
 
 
